@@ -2179,3 +2179,20 @@ M("c13-ndigits-from-zero", "C13", "m3/reporter.go",
   "	n := 1\n	for i/10 != 0 {", "	n := 0\n	for i/10 != 0 {", expect="bucket-identity")
 M("c13-m3-renderer-inverted", "C13", "m3/reporter.go",
   "	if v == -math.MaxFloat64 {", "	if v != -math.MaxFloat64 {", expect="")
+M("c15-deadline-in-constructor", "C15", "m3/thriftudp/transport.go",
+  '	"net"\n', '	"net"\n	"time"\n', expect="O9 no-standing-deadline",
+  more=[("m3/thriftudp/transport.go", "	return &TUDPTransport{\n		addr:        destAddr,\n		conn:        conn,\n		readByteBuf: make([]byte, 1),\n	}, nil\n}\n\n// NewTUDPServerTransport creates",
+         "	_ = conn.SetWriteDeadline(time.Now().Add(5 * time.Second))\n	return &TUDPTransport{\n		addr:        destAddr,\n		conn:        conn,\n		readByteBuf: make([]byte, 1),\n	}, nil\n}\n\n// NewTUDPServerTransport creates")])
+B("c15-deadline-per-send", "C15", "m3/thriftudp/transport.go",
+  '	"net"\n', '	"net"\n	"time"\n',
+  more=[("m3/thriftudp/transport.go", "	_, err := p.conn.Write(p.writeBuf.Bytes())\n	p.writeBuf.Reset() // always",
+         "	_ = p.conn.SetWriteDeadline(time.Now().Add(5 * time.Second))\n	_, err := p.conn.Write(p.writeBuf.Bytes())\n	p.writeBuf.Reset() // always")])
+M("c15-flush-on-error-path", "C15", "m3/reporter.go",
+  "	if err != nil {\n		r.numWriteErrors.Inc()\n	}", "	if err != nil {\n		r.numWriteErrors.Inc()\n		_ = r.client.Transport.Flush()\n	}", expect="O8 flush-completes-message")
+M("c17-vector-id-colon", "C17", "prometheus/reporter.go",
+  "	return metricID(tally.KeyForPrefixedStringMap(name, keySet))", "	if len(tagKeys) == 0 {\n		return metricID(name)\n	}\n	return metricID(name + \":\" + strings.Join(tagKeys, \":\"))", expect="O6 vector-identity")
+M("c17-vector-id-skips-keys", "C17", "prometheus/reporter.go",
+  "	for _, key := range tagKeys {\n		keySet[key] = metricIDKeyValue\n	}", "	for i, key := range tagKeys {\n		if i > 0 {\n			break\n		}\n		keySet[key] = metricIDKeyValue\n	}", expect="O6 vector-identity")
+M("c20-bound-table-reused", "C20", "stats.go",
+  "			hbuckets: make([]histogramBucket, 0, len(pairs)),", "			hbuckets: scratchBuckets[:0],", expect="O6 bound-table-private",
+  more=[("stats.go", "func newBucketStorage(", "var scratchBuckets = make([]histogramBucket, 0, 64)\n\nfunc newBucketStorage(")])
